@@ -110,6 +110,17 @@ func (x *runner) one(b []byte, class string, expect string) {
 	if alloc > bound {
 		fail(fmt.Sprintf("Decode allocated %d bytes for %d input bytes (bound %d)", alloc, len(b), bound))
 	}
+	if len(b) > 0 {
+		end, okRef := refAccept(b, 0, 0)
+		switch {
+		case okRef && !cp.ok:
+			fail("an item the E5 grammar accepts is rejected")
+		case !okRef && cp.ok:
+			fail("input the E5 grammar rejects is accepted")
+		case okRef && cp.ok && end != len(cp.raw):
+			fail(fmt.Sprintf("decoded item spans %d bytes, the grammar says %d", len(cp.raw), end))
+		}
+	}
 	switch expect {
 	case "accept":
 		if !cp.ok {
@@ -144,6 +155,59 @@ func (x *runner) one(b []byte, class string, expect string) {
 	if !again.ok || !secs2.Equal(again.item, cp.item) || !bytes.Equal(again.raw, cp.raw) {
 		fail("decoding the re-encoded bytes does not reproduce the item")
 	}
+}
+
+// refAccept is an independent recogniser for the receiver-side SEMI E5 item grammar (any
+// length-byte count 1..3, known format codes, payload a multiple of the element width,
+// localized string >= 2 bytes, nesting <= MaxListDepth). It returns the end position of the
+// first item, or ok=false. Oracle only: it shares no code with the model or the library.
+func refAccept(b []byte, pos, depth int) (end int, ok bool) {
+	if pos >= len(b) {
+		return 0, false
+	}
+	fc, nl := int(b[pos]>>2), int(b[pos]&3)
+	if nl == 0 || pos+1+nl > len(b) {
+		return 0, false
+	}
+	l := 0
+	for i := 0; i < nl; i++ {
+		l = l<<8 | int(b[pos+1+i])
+	}
+	pos += 1 + nl
+	width := 0
+	switch fc {
+	case 0o00:
+		if depth+1 > secs2.MaxListDepth {
+			return 0, false
+		}
+		for i := 0; i < l; i++ {
+			if pos, ok = refAccept(b, pos, depth+1); !ok {
+				return 0, false
+			}
+		}
+		return pos, true
+	case 0o10, 0o11, 0o20, 0o21:
+		width = 1
+	case 0o22:
+		if l < 2 {
+			return 0, false
+		}
+		width = 1
+	case 0o31, 0o51:
+		width = 1
+	case 0o32, 0o52:
+		width = 2
+	case 0o34, 0o54, 0o44:
+		width = 4
+	case 0o30, 0o50, 0o40:
+		width = 8
+	default:
+		return 0, false
+	}
+	if l%width != 0 || pos+l > len(b) {
+		return 0, false
+	}
+	return pos + l, true
 }
 
 func trunc(s string) string {
